@@ -8,13 +8,17 @@ open KamalProxy Spec
 
 /-- At every moment of every command history (deploy, redeploy, rollout, pause, stop, resume,
     remove, restart — failing commands included) each (host, prefix) pair has one owner. -/
-theorem C05_unique (cmds : List Cmd) : UniqueOwner (table (run cmds)) :=
-  uniqueOwner_of_UO (inv5_run cmds).uo
+theorem C05_unique (cmds : List Cmd) : UniqueOwner (table (run cmds)) := by
+  unfold table State.svcs
+  rw [run_core]
+  exact uniqueOwner_of_UO (inv5_runCore cmds).uo
 
 /-- … and the same holds for what is on disk, so a restart cannot create a double owner. -/
 theorem C05_unique_on_disk (cmds : List Cmd) (sns : List SvcSnap) (h : (run cmds).file = some sns) :
-    UO (sns.map snapKey) :=
-  (inv5_run cmds).file sns h
+    UO (sns.map snapKey) := by
+  unfold State.file at h
+  rw [run_core] at h
+  exact (inv5_runCore cmds).file sns h
 
 /-- The availability check refuses exactly when another service owns one of the claimed pairs. -/
 theorem C05_conflict_iff (svcs : List Svc) (name : Bytes) (o : SvcOptions) :
@@ -29,56 +33,58 @@ theorem C05_conflict_iff (svcs : List Svc) (name : Bytes) (o : SvcOptions) :
 
 /-- A deploy that claims a pair owned by a different service reports an error and leaves the
     service table exactly as it was (whatever else is wrong or right with the command). -/
-theorem C05_conflict_rejected (s : State) (name : Bytes) (ts : List Bytes) (opts : SvcOptions)
+theorem C05_conflict_rejected (c : Core) (name : Bytes) (ts : List Bytes) (opts : SvcOptions)
     (topts : TargetOptions) (env : Env)
-    (hc : conflict s.svcs name (normalizeOpts opts) = true) :
-    (step s (.deploy name ts opts topts env)).2.isError = true ∧
-    (step s (.deploy name ts opts topts env)).1.svcs = s.svcs := by
-  simp only [step]
+    (hc : conflict c.svcs name (normalizeOpts opts) = true) :
+    (stepCore c (.deploy name ts opts topts env)).2.1.isError = true ∧
+    (stepCore c (.deploy name ts opts topts env)).1.svcs = c.svcs := by
+  simp only [stepCore]
   split
   · rename_i e he; exact ⟨initService_error he, rfl⟩
   · rename_i cm _
-    have hc' : conflict s.svcs (deployObj s name (normalizeOpts opts) topts cm).name
-        (deployObj s name (normalizeOpts opts) topts cm).opts = true := by
+    have hc' : conflict c.svcs (deployObj c name (normalizeOpts opts) topts cm).name
+        (deployObj c name (normalizeOpts opts) topts cm).opts = true := by
       rw [deployObj_name, deployObj_opts]; exact hc
-    rcases deployInto_cases s (deployObj s name (normalizeOpts opts) topts cm) .active ts env with
-      ⟨h1, h2⟩ | ⟨h1, h2⟩ | ⟨h1, _, h2⟩ | ⟨_, h3, _⟩
-    · exact ⟨by rw [h1]; rfl, h2⟩
-    · exact ⟨by rw [h1]; rfl, h2⟩
-    · exact ⟨by rw [h1]; rfl, h2⟩
+    rcases deployInto_cases c (deployObj c name (normalizeOpts opts) topts cm) .active ts env with
+      e | e | ⟨_, e⟩ | ⟨h3, _⟩
+    · rw [e]; exact ⟨rfl, rfl⟩
+    · rw [e]; exact ⟨rfl, rfl⟩
+    · rw [e]; exact ⟨rfl, rfl⟩
     · rw [hc'] at h3; cases h3
 
 /-- What a successful deploy does to the table: the availability check passed and the table is
     the old one with this service's entry replaced (or added). -/
-theorem C05_deploy_ok (s : State) (name : Bytes) (ts : List Bytes) (opts : SvcOptions)
+theorem C05_deploy_ok (c : Core) (name : Bytes) (ts : List Bytes) (opts : SvcOptions)
     (topts : TargetOptions) (env : Env)
-    (hok : (step s (.deploy name ts opts topts env)).2 = .ok) :
-    conflict s.svcs name (normalizeOpts opts) = false ∧
+    (hok : (stepCore c (.deploy name ts opts topts env)).2.1 = .ok) :
+    conflict c.svcs name (normalizeOpts opts) = false ∧
     ∃ v, v.name = name ∧ v.opts = normalizeOpts opts ∧
-      (step s (.deploy name ts opts topts env)).1.svcs = setSvc s.svcs v := by
-  simp only [step] at hok ⊢
+      (stepCore c (.deploy name ts opts topts env)).1.svcs = setSvc c.svcs v := by
+  simp only [stepCore] at hok ⊢
   split at hok
   · rename_i e he
     have := initService_error he
     simp only at hok
     rw [hok] at this; cases this
   · rename_i cm hcm
-    rcases deployInto_cases s (deployObj s name (normalizeOpts opts) topts cm) .active ts env with
-      ⟨h1, _⟩ | ⟨h1, _⟩ | ⟨h1, _, _⟩ | ⟨_, h3, h4⟩
-    · rw [h1] at hok; cases hok
-    · rw [h1] at hok; cases hok
-    · rw [h1] at hok; cases hok
+    rcases deployInto_cases c (deployObj c name (normalizeOpts opts) topts cm) .active ts env with
+      e | e | ⟨_, e⟩ | ⟨h3, effs, e⟩
+    · rw [e] at hok; cases hok
+    · rw [e] at hok; cases hok
+    · rw [e] at hok; cases hok
     · rw [deployObj_name, deployObj_opts] at h3
-      exact ⟨h3, _, by rw [withLb_name, deployObj_name], by rw [withLb_opts, deployObj_opts], h4⟩
+      refine ⟨h3, withLb (deployObj c name (normalizeOpts opts) topts cm) .active ts,
+        by rw [withLb_name, deployObj_name], by rw [withLb_opts, deployObj_opts], ?_⟩
+      rw [e]; rfl
 
 /-- A successful deploy leaves the service owning exactly the pairs it now lists: pairs it no
     longer lists are released (a redeploy may move a service). -/
-theorem C05_move_releases (s : State) (name : Bytes) (ts : List Bytes) (opts : SvcOptions)
+theorem C05_move_releases (c : Core) (name : Bytes) (ts : List Bytes) (opts : SvcOptions)
     (topts : TargetOptions) (env : Env)
-    (hok : (step s (.deploy name ts opts topts env)).2 = .ok) :
-    ∀ k ∈ keys (step s (.deploy name ts opts topts env)).1.svcs, k.name = name →
+    (hok : (stepCore c (.deploy name ts opts topts env)).2.1 = .ok) :
+    ∀ k ∈ keys (stepCore c (.deploy name ts opts topts env)).1.svcs, k.name = name →
       k.hosts = (normalizeOpts opts).hosts ∧ k.prefixes = (normalizeOpts opts).prefixes := by
-  obtain ⟨_, v, hn, ho, hs⟩ := C05_deploy_ok s name ts opts topts env hok
+  obtain ⟨_, v, hn, ho, hs⟩ := C05_deploy_ok c name ts opts topts env hok
   rw [hs]
   intro k hk hkn
   rcases mem_keys_setSvc hk with ⟨_, hne⟩ | rfl
@@ -86,32 +92,29 @@ theorem C05_move_releases (s : State) (name : Bytes) (ts : List Bytes) (opts : S
   · simp [keyOf, ho]
 
 /-- `remove` releases every pair of the service. -/
-theorem C05_remove_releases (s : State) (name : Bytes) (hex : (s.get name).isSome) :
-    ∀ k ∈ keys (step s (.remove name)).1.svcs, k.name ≠ name := by
-  simp only [step, withSvc]
-  cases hg : s.get name with
+theorem C05_remove_releases (c : Core) (name : Bytes) (hex : (c.get name).isSome) :
+    ∀ k ∈ keys (stepCore c (.remove name)).1.svcs, k.name ≠ name := by
+  simp only [stepCore, withSvc]
+  cases hg : c.get name with
   | none => simp [hg] at hex
   | some v =>
     simp only
     intro k hk
-    have : k ∈ keys (removeSvc s.svcs name) := by
-      simp only [save] at hk
-      split at hk <;> exact hk
-    exact (keys_removeSvc_subset _ name k this).2
+    exact (keys_removeSvc_subset _ name k hk).2
 
 /-- Racing deploys, as serialised by the router's write lock (check and set are one atomic
     step): once one of them is installed, a deploy under another name that claims a common
     pair is refused — exactly one of them succeeds. -/
-theorem C05_second_rejected (s : State) (n1 n2 : Bytes) (ts1 ts2 : List Bytes) (o1 o2 : SvcOptions)
+theorem C05_second_rejected (c : Core) (n1 n2 : Bytes) (ts1 ts2 : List Bytes) (o1 o2 : SvcOptions)
     (t1 t2 : TargetOptions) (e1 e2 : Env) (hne : n1 ≠ n2)
-    (hok : (step s (.deploy n1 ts1 o1 t1 e1)).2 = .ok)
+    (hok : (stepCore c (.deploy n1 ts1 o1 t1 e1)).2.1 = .ok)
     (h : Bytes) (p : Bytes)
     (h1 : h ∈ (normalizeOpts o1).hosts) (p1 : p ∈ (normalizeOpts o1).prefixes)
     (h2 : h ∈ (normalizeOpts o2).hosts) (p2 : p ∈ (normalizeOpts o2).prefixes) :
-    (step (step s (.deploy n1 ts1 o1 t1 e1)).1 (.deploy n2 ts2 o2 t2 e2)).2.isError = true := by
+    (stepCore (stepCore c (.deploy n1 ts1 o1 t1 e1)).1 (.deploy n2 ts2 o2 t2 e2)).2.1.isError = true := by
   apply (C05_conflict_rejected _ n2 ts2 o2 t2 e2 ?_).1
   rw [C05_conflict_iff]
-  obtain ⟨_, v, hn, ho, hs⟩ := C05_deploy_ok s n1 ts1 o1 t1 e1 hok
+  obtain ⟨_, v, hn, ho, hs⟩ := C05_deploy_ok c n1 ts1 o1 t1 e1 hok
   refine ⟨keyOf v, ?_, by simpa [keyOf, hn] using hne, h, h2, by simpa [keyOf, ho] using h1, p, p2,
     by simpa [keyOf, ho] using p1⟩
   rw [hs]; exact keyOf_mem_setSvc _ _
